@@ -77,6 +77,20 @@ class Read:
                 o = c['ops'][0]
                 if o[0] != 'get' or o[5] != 'label' or not nc_ok_array(c['ins'][0]): continue
                 a = c['ins'][0]
+                # longer list indices in scrambled order (3 or more positions, repeats): the order of the fetched rows matters
+                form = o[2]
+                items = form.get('tuple') or [i for _, i in form.get('dict', [])] or ([form['axis'][1]] if 'axis' in form else [])
+                for it in items:
+                    if isinstance(it, dict) and rng.random() < 0.5:
+                        for key in ('l', 'pl'):
+                            if key in it and len(it[key]) >= 1:
+                                src = None
+                                for d_, labs in zip(a['dims'], a['labels']):
+                                    if key == 'l' and it[key][0] in labs: src = labs
+                                    if key == 'pl' and len(labs) > max(abs(x) for x in it[key]): src = list(range(len(labs)))
+                                if src and len(src) >= 3:
+                                    new = [rng.choice(src) for _ in range(rng.randint(3, 5))]
+                                    it[key] = new; stats['read_long_list'][len(new)] += 1
                 stats['read_spelling'][o[1]] += 1; stats['read_ndim'][len(a['dims'])] += 1
                 fmt = rng.choice(['NETCDF4', 'NETCDF4', 'NETCDF3_CLASSIC'])
                 if fmt != 'NETCDF4' and 'O' in a['axdtype']: fmt = 'NETCDF4'
